@@ -965,3 +965,129 @@ func (g *gen) famRandom(id string, count, maxFields int) []*Scenario {
 	}
 	return out
 }
+
+// famC08: the grammar of C08 — big structs (1..40 fields, 0..5 markers per field), struct-level markers,
+// nesting to depth 3 with field names unique per struct — preceded by a fixed corpus of documented
+// shapes that are known not to compile (known findings; identified by their exact declaration).
+func (g *gen) famC08(id string, count int) []*Scenario {
+	var out []*Scenario
+	str := func(names ...string) *Field { return &Field{Names: names, Type: stringT} }
+	mk := func(id string, expr string) Marker { return Marker{ID: id, Expr: expr, HasExpr: expr != ""} }
+	with := func(f *Field, ms ...Marker) *Field { f.Markers = ms; return f }
+	corpus := []*Decl{
+		// error-variable name collision: X+MinLength == XMin+Length
+		{Name: "K1", Fields: []*Field{with(str("X"), mk("minlength", "1")), with(str("XMin"), mk("length", "3"))}},
+		{Name: "K2", Fields: []*Field{with(str("X"), mk("maxlength", "9")), with(str("XMax"), mk("length", "3"))}},
+		// the same field name in two nested structs: the legacy alias Err<Struct><Field>… is declared twice
+		{Name: "K3", Fields: []*Field{
+			{Names: []string{"A"}, Nested: []*Field{with(str("N"), mk("required", ""))}},
+			{Names: []string{"B"}, Nested: []*Field{with(str("N"), mk("required", ""))}}}},
+		// struct-level marker over an anonymous nested struct: inner fields are validated twice
+		{Name: "K4", Markers: []Marker{mk("required", "")}, Fields: []*Field{
+			str("P"), {Names: []string{"In"}, Nested: []*Field{str("Q")}}}},
+		// a nested struct declared with two names
+		{Name: "K6", Fields: []*Field{{Names: []string{"L", "R"}, Nested: []*Field{with(str("V"), mk("required", ""))}}}},
+	}
+	{
+		for _, d := range corpus {
+			one := newScenario(id + "k" + strings.ToLower(d.Name))
+			one.Decls = []*Decl{d}
+			g.sc = one
+			one.Values[d.Name] = g.structValues(d, 2)
+			out = append(out, one)
+		}
+	}
+	// parameters needing escaping (enum items, one scenario each so that a generator failure is attributed)
+	for i, item := range []string{"a b", "it's", "x,y", "tab\there", "semi;colon", "ünï", "100%", "a=b", "{x}", "`tick`", "say \"hi\"", "back\\slash", "\\\"", "%s %d"} {
+		sc := newScenario(fmt.Sprintf("%se%02d", id, i))
+		g.sc = sc
+		d := &Decl{Name: "E", Fields: []*Field{with(str("F"), Marker{ID: "enum", Expr: item + ",plain", HasExpr: true})}}
+		sc.Decls = []*Decl{d}
+		sc.Values["E"] = g.structValues(d, 4)
+		out = append(out, sc)
+	}
+	for s := 0; s < count; s++ {
+		sc := newScenario(fmt.Sprintf("%s%03d", id, s))
+		g.sc = sc
+		nd := 1 + g.rng.Intn(3)
+		for di := 0; di < nd; di++ {
+			d := &Decl{Name: fmt.Sprintf("W%d", di)}
+			fi := 0
+			var build func(depth, n int) []*Field
+			build = func(depth, n int) []*Field {
+				var fs []*Field
+				for i := 0; i < n; i++ {
+					fi++
+					if depth < 3 && g.rng.Intn(6) == 0 {
+						fs = append(fs, &Field{Names: []string{fmt.Sprintf("G%d", fi)}, Nested: build(depth+1, 1+g.rng.Intn(4))})
+						continue
+					}
+					t := g.anyType()
+					k := []int{0, 1, 1, 2, 2, 3, 4, 5}[g.rng.Intn(8)]
+					fs = append(fs, &Field{Names: []string{fmt.Sprintf("F%d", fi)}, Type: t, Markers: g.fieldMarkers(t, k)})
+				}
+				return fs
+			}
+			d.Fields = build(0, []int{1, 2, 5, 10, 20, 40}[g.rng.Intn(6)])
+			flat := true
+			for _, f := range d.Fields {
+				if f.Nested != nil {
+					flat = false
+				}
+			}
+			if flat && g.rng.Intn(2) == 0 {
+				pool := []string{"required", "minlength", "maxlength", "gt", "lt", "gte", "lte", "minitems", "maxitems", "email", "alpha", "numeric", "uuid", "url", "length", "ipv4", "ipv6"}
+				g.rng.Shuffle(len(pool), func(i, j int) { pool[i], pool[j] = pool[j], pool[i] })
+				for _, r := range pool[:1+g.rng.Intn(3)] {
+					switch r {
+					case "gt", "lt", "gte", "lte":
+						d.Markers = append(d.Markers, Marker{ID: r, Expr: []string{"0", "1", "5", "100"}[g.rng.Intn(4)], HasExpr: true})
+					default:
+						d.Markers = append(d.Markers, g.marker(r, stringT))
+					}
+				}
+				for _, f := range d.Fields {
+					if f.Type.Kind == "named" && f.Type.Underlying().Basic == "String" {
+						f.Type = stringT // K5
+					}
+					if strings.HasPrefix(f.Type.Underlying().Basic, "Complex") {
+						f.Type = boolT // outside the documented table
+					}
+					var keep []Marker
+					for _, fm := range f.Markers {
+						dup := false
+						for _, tm := range d.Markers {
+							if tm.ID == fm.ID {
+								dup = true
+							}
+						}
+						if !dup {
+							keep = append(keep, fm)
+						}
+					}
+					f.Markers = keep
+				}
+			}
+			sc.Decls = append(sc.Decls, d)
+			sc.Values[d.Name] = g.structValues(d, 3)
+		}
+		out = append(out, sc)
+	}
+	return out
+}
+
+// corpusC07: documented shapes on which the reported Path is known to be wrong (known findings)
+func (g *gen) corpusC07(id string) []*Scenario {
+	str := func(names ...string) *Field { return &Field{Names: names, Type: stringT} }
+	req := Marker{ID: "required"}
+	// dotted paths that clean to the same identifier: A.BC and AB.C share one error variable
+	d := &Decl{Name: "K7", Fields: []*Field{
+		{Names: []string{"A"}, Nested: []*Field{{Names: []string{"BC"}, Type: stringT, Markers: []Marker{req}}}},
+		{Names: []string{"AB"}, Nested: []*Field{{Names: []string{"C"}, Type: stringT, Markers: []Marker{req}}}}}}
+	_ = str
+	sc := newScenario(id + "k7")
+	g.sc = sc
+	sc.Decls = []*Decl{d}
+	sc.Values["K7"] = g.structValues(d, 4)
+	return []*Scenario{sc}
+}
